@@ -362,6 +362,18 @@ class Unit:
                 if pt.startswith("x:") or pt.startswith("r:x:"):
                     continue        # a function reference / opaque object handed through
                 vals.append(ev.ev(a, st))      # (a template callee: the argument already has the instantiation's type)
+                if cc.pure == "uf":
+                    # a comparator must see the elements themselves: a conversion that can merge distinct values
+                    # (64-bit integers to double, 32/64-bit integers to float) is refused
+                    x = a
+                    while x[0] == "cast" and len(x) > 3 and x[3] in ("NoOp", "noop"):
+                        x = x[1]
+                    if x[0] == "cast" and len(x) > 3 and x[3] == "IntegralToFloating":
+                        src = sym.expr_type(x[1])
+                        bits = INT_TYPES.get(unconst(src or ""), (0, True))[0]
+                        lossy = bits > (53 if x[2] == "f64" else 24)
+                        ev.oblige("C.lossless", z3.BoolVal(not lossy), st,
+                                  "comparator %s is called on the %s elements themselves, not on a lossy conversion to %s" % (name, src, x[2]))
             if cc.pure == "uf" and rty == "bool":
                 # a deterministic function of its arguments: the same uninterpreted predicate at every call (and in
                 # contracts, where it is written P_<name>(...))
@@ -535,6 +547,17 @@ class Unit:
             return Val(IV(0), "opaque")
         if name in ("sort", "stable_sort") and len(args) == 3:
             arr, lo, hi = self._iter_range(ev, args[0], args[1], st, "std::" + name)
+            sv = st.vars.get("stable")
+            if sv is not None and sv.k == "bool":
+                # a request for a stable order must be served by the stable library sort: std::sort gives no such
+                # guarantee (libstdc++'s happens to be stable up to 16 elements, which hides it from small tests).
+                # Decided over the branch conditions alone (the quantifier-free part of the path condition), so that a
+                # violated obligation comes with the flag values that reach the call.
+                qf = [h for h in st.pc if "forall" not in h.sexpr() and "exists" not in h.sexpr()]
+                claim = z3.BoolVal(True) if name == "stable_sort" else z3.Not(sv.t)
+                ev.obls.append(sym.Obligation("C.stable", ev.loc_label, ev.line,
+                                              "a call of std::%s is only reached when `stable` is false" % name if name == "sort"
+                                              else "a stable order is requested from std::stable_sort", list(ev.facts) + qf, claim, {}))
             old = st.arrs[arr]
             lam = args[2]
             # the comparator is called on pairs of ELEMENTS of the range: whatever it reads must be in bounds
